@@ -916,9 +916,19 @@ def check_c13(c, af, a, mf):
                 fid = "F6b-minmax-ignores-block-ref-children" if not under_rep_block else fid
         return {"why": f"{x['kind']} instance {x['path']} has address {x['address']} outside {t} but the definition is accepted", "finding": fid}
     if oc == "error" and af.get("kind", "").startswith("addr_too_"):
-        nums = af.get("numbers") or []
+        nums = [int(x) for x in (af.get("numbers") or [])]
         if len(nums) < 2:
             return {"why": "the address-range error does not state the offending bound", "finding": None}
+        # "... go as low/high as A, but the selected address type only goes down/up to B": A must be an address of that
+        # kind outside the type, B the type's own limit
+        kind = af["kind"].rsplit("_", 1)[-1]
+        t = cfg.get(tkey.get(kind, ""))
+        if t:
+            lo, hi = TYPE_RANGE[t]
+            low = "too_low" in af["kind"]
+            if (low and not (nums[0] < lo and nums[1] == lo)) or (not low and not (nums[0] > hi and nums[1] == hi)):
+                return {"why": f"the {kind} address-range error states {nums[0]} against the limit {nums[1]}; the {t} limit is "
+                               f"{lo if low else hi} and the stated address must lie beyond it", "finding": None}
     if oc != "ok":
         return None
     # accepted: the generated arithmetic never overflows on the way
@@ -1210,6 +1220,9 @@ def check_c06(c, af, a, mf):
                     return {"why": f"{n}.{ef['name']} {role}: range {x['start']}..{x['end']}, declared {s}..{e}", "finding": None}
                 if x["fn"] != want_fn or x["byte_order"] != bo:
                     return {"why": f"{n}.{ef['name']} {role}: {x['fn']}<{x['byte_order']}>, effective orders are {bito}/{bo}", "finding": None}
+                if width > 128 and f["base"] != "bool":
+                    return {"why": f"{n}.{ef['name']} {role}: the field is {width} bits wide; no 8..128-bit carrier fits, yet the definition is "
+                                   f"accepted (carrier {x['carrier']})", "finding": "F18-field-wider-than-128-bits-gets-a-nonexistent-carrier" if known else None}
                 if x["carrier"] != carrier_for(f["base"], width):
                     return {"why": f"{n}.{ef['name']} {role}: carrier {x['carrier']}, smallest fitting is {carrier_for(f['base'], width)}", "finding": None}
                 if f["base"] == "bool":
@@ -1319,7 +1332,7 @@ def check_c03(c, af, a, mf):
                     continue
                 if not (x["start"] < x["end"] <= fs["size_bits"] <= 8 * fs["size_bytes"]):
                     return {"why": f"{fs['name']}.{f['name']} {role}: range {x['start']}..{x['end']} is not inside the {fs['size_bits']}-bit / {fs['size_bytes']}-byte set", "finding": None}
-                cb = BITS.get(x["carrier"])
+                cb = BITS.get(x["carrier"]) or (int(x["carrier"][1:]) if x["carrier"][1:].isdigit() else None)
                 if cb is None or x["end"] - x["start"] > cb:
                     return {"why": f"{fs['name']}.{f['name']} {role}: {x['end'] - x['start']} bits in carrier {x['carrier']}", "finding": None}
                 if x["conv"] == "bool" and (x["end"] - x["start"] != 1 or x["carrier"] != "u8"):
